@@ -461,6 +461,36 @@ theorem source_binop_str : LowerOrder.binopStr = [
   "endmatch"
 ] := rfl
 
+/-- `binopList`: `+` on lists is `desugared_binop(concat)` — the same function as string `+`, so the
+    operand order proved for `concat` (T1 `concat_operands_left_to_right`, T2) is the order of list `+` too. -/
+theorem source_binop_list : LowerOrder.binopList = [
+  "match(v0)",
+  "arm(ast::BinOp::Add)",
+  "self.desugared_binop(TypeId::of::<ErasedList>(),\"concat\",v1.clone(),(v2,v1.clone()),(v3,v1.clone()))",
+  "arm(_)",
+  "endmatch"
+] := rfl
+
+/-- `binopIpAddr`: `addr / len` is `desugared_binop(Prefix.new)`: left operand first as well. -/
+theorem source_binop_ip_addr : LowerOrder.binopIpAddr = [
+  "match(v0)",
+  "arm(ast::BinOp::Div)",
+  "self.desugared_binop(v1,\"new\",Type::prefix(),(v2,Type::ip_addr()),(v3,Type::u8()))",
+  "arm(_)",
+  "endmatch"
+] := rfl
+
+/-- `binopAnd`: `l && r` is `shortcircuit_binop` whose switch goes to the block of the RIGHT operand
+    exactly when the left operand is `1` (true) — `LowerS.shortCircuit` with `otherIf = 1`. -/
+theorem source_binop_and : LowerOrder.binopAnd = [
+  "self.shortcircuit_binop(v0,v1,\"and_other\",1)"
+] := rfl
+
+/-- `binopOr`: `l || r` runs the right operand exactly when the left operand is `0` (false). -/
+theorem source_binop_or : LowerOrder.binopOr = [
+  "self.shortcircuit_binop(v0,v1,\"or_other\",0)"
+] := rfl
+
 /-- `callRuntime`: builds the lazy `Value::CallRuntime` over already materialised arguments. -/
 theorem source_call_runtime : LowerOrder.callRuntime = [
   "Value::CallRuntime{func_ref:v0,args:v1,mir_signature:v2,vtables:v3}"
